@@ -251,6 +251,28 @@ class NetProxy(Proxy):
     regulation_count = _whole_graph("regulation_count")
     del _whole_graph
 
+    def _syntactic(name):
+        def m(self, *a, **k):
+            real = object.__getattribute__(self, "_real")
+            if CTX.opaque == 0 and CTX.active:
+                # a question about the WRITTEN form of the update functions (no functional contract over the dynamics):
+                # the answer is a function of the text the harness rendered from the truth table, so the whole table of
+                # this network is pinned - the class shrinks to the networks with these functions
+                nctx = object.__getattribute__(self, "_nctx")
+                net = CTX.net
+                base = nctx[0]
+                for v in netvars(nctx):
+                    for x in net.states:
+                        if all(b is None or x[i] == b for i, b in enumerate(base)):
+                            CTX.obs(net.fval(v, x))
+            return getattr(real, name)(*[unwrap(x) for x in a], **k)
+        m.__name__ = name
+        return m
+    input_names = _syntactic("input_names")
+    inputs = _syntactic("inputs")
+    get_update_function = _syntactic("get_update_function")
+    del _syntactic
+
     def strongly_connected_components(self, *a, **k):
         real = object.__getattribute__(self, "_real")
         if CTX.opaque == 0 and CTX.active:
@@ -979,24 +1001,44 @@ class UnwrapStatic:
         return call
 
 
+def _orig(name):
+    """the library function `name` from the module that defines it (a refactoring of the importing modules - an
+    import dropped from succession_diagram.py, say - must not break the installation of the oracles)"""
+    import importlib
+    for m in ("trappist_core", "space_utils", "petri_net_translation", "interaction_graph_utils",
+              "_sd_attractors.attractor_candidates", "_sd_attractors.attractor_symbolic",
+              "_sd_algorithms.expand_source_blocks", "succession_diagram"):
+        try:
+            mod = importlib.import_module("biobalm." + m)
+        except Exception:
+            continue
+        f = vars(mod).get(name)
+        if f is not None and getattr(f, "__module__", "").endswith(m.split(".")[-1]):
+            return f
+    for mod in _biobalm_modules():
+        if name in vars(mod):
+            return vars(mod)[name]
+    raise Unmodelled(f"library function {name} not found")
+
+
 def install():
     if _PATCHED:
         return
     patch_all(ba.Attractors, UnwrapStatic(ba.Attractors, "Attractors"), "Attractors")
     patch_all(ba.Reachability, UnwrapStatic(ba.Reachability, "Reachability"), "Reachability")
-    patch_all(SDM.trappist, w_trappist, "trappist")
-    patch_all(SDM.percolate_space, w_percolate_space, "percolate_space")
-    patch_all(SDM.percolate_network, w_percolate_network, "percolate_network")
-    patch_all(SDM.network_to_petrinet, w_network_to_petrinet, "network_to_petrinet")
-    patch_all(SDM.restrict_petrinet_to_subspace, w_restrict_petrinet, "restrict_petrinet_to_subspace")
-    patch_all(SDM.extract_source_variables, w_extract_source_variables, "extract_source_variables")
-    patch_all(SDM.cleanup_network, w_cleanup_network, "cleanup_network")
-    patch_all(SDM.feedback_vertex_set, w_feedback_vertex_set, "feedback_vertex_set")
-    patch_all(SDM.source_SCCs, w_source_SCCs, "source_SCCs")
-    patch_all(ESB.source_nodes, w_source_nodes, "source_nodes")
-    patch_all(AC.compute_fixed_point_reduced_STG, w_rfp, "compute_fixed_point_reduced_STG")
-    patch_all(SDM.compute_attractors_symbolic, w_compute_attractors_symbolic, "compute_attractors_symbolic")
-    patch_all(SDM.symbolic_attractor_fallback, w_symbolic_attractor_fallback, "symbolic_attractor_fallback")
+    patch_all(_orig("trappist"), w_trappist, "trappist")
+    patch_all(_orig("percolate_space"), w_percolate_space, "percolate_space")
+    patch_all(_orig("percolate_network"), w_percolate_network, "percolate_network")
+    patch_all(_orig("network_to_petrinet"), w_network_to_petrinet, "network_to_petrinet")
+    patch_all(_orig("restrict_petrinet_to_subspace"), w_restrict_petrinet, "restrict_petrinet_to_subspace")
+    patch_all(_orig("extract_source_variables"), w_extract_source_variables, "extract_source_variables")
+    patch_all(_orig("cleanup_network"), w_cleanup_network, "cleanup_network")
+    patch_all(_orig("feedback_vertex_set"), w_feedback_vertex_set, "feedback_vertex_set")
+    patch_all(_orig("source_SCCs"), w_source_SCCs, "source_SCCs")
+    patch_all(_orig("source_nodes"), w_source_nodes, "source_nodes")
+    patch_all(_orig("compute_fixed_point_reduced_STG"), w_rfp, "compute_fixed_point_reduced_STG")
+    patch_all(_orig("compute_attractors_symbolic"), w_compute_attractors_symbolic, "compute_attractors_symbolic")
+    patch_all(_orig("symbolic_attractor_fallback"), w_symbolic_attractor_fallback, "symbolic_attractor_fallback")
     patch_all(ba.AsynchronousGraph, w_AsynchronousGraph, "AsynchronousGraph")
     patch_all(ba.BooleanNetwork, BNFacade, "BooleanNetwork")
     # (every oracle passes real / untracked arguments through, so the regions' internal calls stay real)
